@@ -689,6 +689,25 @@ impl Kanata {
         self.prev_layer = cur_layer;
         self.print_layer(cur_layer);
         self.macro_on_press_cancel_duration = 0;
+        // State of actions of the previous configuration must not leak into the new one:
+        // `rpt` must not repeat a key pressed before; caps-word, sequence mode and unmod / unshift
+        // must not stay active.
+        self.last_pressed_key = KeyCode::No;
+        self.caps_word = None;
+        self.sequence_state = SequenceState::new();
+        self.unmodded_keys.clear();
+        self.unmodded_mods = UnmodMods::empty();
+        self.unshifted_keys.clear();
+        // Continuous scrolling / mouse movement is stopped by the release handler of the action
+        // that started it, which does not exist any more.
+        self.scroll_state = None;
+        self.hscroll_state = None;
+        self.move_mouse_state_vertical = None;
+        self.move_mouse_state_horizontal = None;
+        // Pending on-idle / hold-for-duration operations refer to virtual keys of the previous
+        // configuration by coordinate.
+        self.waiting_for_idle.clear();
+        self.vkeys_pending_release.clear();
 
         #[cfg(not(target_os = "linux"))]
         {
